@@ -26,7 +26,7 @@ from .. import narrow as nw
 from .. import narrow_pen as npn
 
 PID = "C07"
-PROOF_FILES = ["theories/Props/C07.v", "theories/Checker/Pen.v", "theories/Checker/Narrow.v",
+PROOF_FILES = ["theories/Props/C07.v", "theories/Proofs/Epa.v", "theories/Checker/Pen.v", "theories/Checker/Narrow.v",
                "theories/Checker/Shapes.v", "theories/Spec/Convex.v"]
 KINDS_POLY = ["box", "hull", "mesh"]
 MAX_TREE_NODES = dict(quick=600, thorough=3000)
@@ -203,7 +203,7 @@ def run(tier, seed, replay=None):
         c.pop("result", None)
     tm['generate'] = round(time.time() - t0, 1)
     t0 = time.time()
-    results = [rr[0] for rr in npn.run_cases(PID, cases)]
+    results = [rr[0] for rr in npn.run_cases_confirmed(PID, cases)]
     tm['implementation'] = round(time.time() - t0, 1)
     R.cov["evaluations"] = len(cases)
 
